@@ -475,6 +475,71 @@ def gen_c07(tier, seed):
 
 
 # ------------------------------------------------------------------------------------------
+# C09 validate accuracy, C10 containment of damage
+
+def damage_archive(rng):
+    """A small archive from a varied history: complete versions, sometimes an interrupted one with
+    a header, shared combined blocks, multi-block files, several hunks."""
+    o = rng.choice([{"H": 2, "M": 3, "S": 2}, {"H": 1, "M": 4, "S": 3}, {"H": 3, "M": 2, "S": 1}, {"H": 1000, "M": 1000, "S": 1000}, {"H": 2, "M": 1000, "S": 1000}])
+    t = random_tree(rng, nmax=rng.choice([3, 5, 7]), depth=3, pre_epoch=False, maxlen=7)
+    # make sure there is something to damage: at least two files, one of them spanning blocks
+    t.append(node("/big", "File", bytes((j % 5) + 1 for j in range(7)), mt=(1600000050, 0)))
+    t.append(node("/s1", "File", b"\x01\x02", mt=(1600000051, 0)))
+    t.append(node("/s2", "File", b"\x03", mt=(1600000052, 0)))
+    steps = [{"op": "tree", "tree": t}, bk(o)]
+    for _ in range(rng.randrange(0, 3)):
+        t = mutate_tree(rng, t, maxlen=7)
+        steps += [{"op": "tree", "tree": t}, bk(o)]
+    if rng.random() < 0.4:
+        t = mutate_tree(rng, t, maxlen=7, nmut=3)
+        steps += [{"op": "tree", "tree": t}, bk(o, crash_at=rng.randrange(16, 40))]
+    return steps, o
+
+
+@check("C09", "fault_enumeration", "TLA+ spec (LegalState / DamageMatters over the archive state, Format.tla) + enumeration of every archive file x damage kind on archives from real histories, validate's verdict judged by TLC")
+def gen_c09(tier, seed):
+    rng = random.Random(seed * 1000 + 9)
+    scens = []
+    # healthy side: histories with interrupted-with-header backups, deletes, gcs
+    n = 40 if tier == "quick" else 500
+    for i in range(n):
+        steps = history_steps(rng, rng.choice([3, 5, 8]), observe=None, validate=False, check_each=False)
+        out = []
+        for st in steps:
+            out.append(st)
+            if st["op"] in ("backup", "delete"):
+                out.append({"op": "validate", "quick": False})
+                out.append({"op": "validate", "quick": True})
+        scens.append({"id": sid("C09", "healthy", i), "props": ["C09"], "mode": "clean", "tags": ["healthy"], "steps": out})
+    # damage side
+    m = 14 if tier == "quick" else 150
+    for i in range(m):
+        steps, o = damage_archive(rng)
+        steps += [{"op": "validate", "quick": False},
+                  {"op": "damage_sweep", "with_header": True, "with_tails": False, "bitflips": 1 if tier == "quick" else 4,
+                   "sample": 0 if tier != "quick" else 60, "seed": seed * 100 + i,
+                   "then": [{"op": "validate", "quick": False}, {"op": "validate", "quick": True}]}]
+        scens.append({"id": sid("C09", "dmg", i), "props": ["C09"], "mode": "clean", "tags": ["damage"], "steps": steps})
+    return scens
+
+
+@check("C10", "fault_enumeration", "TLA+ spec (containment monitors over healthy vs damaged archive state) + enumeration of every archive file x damage kind; all read operations and a new backup run on the real code, judged by TLC")
+def gen_c10(tier, seed):
+    rng = random.Random(seed * 1000 + 10)
+    scens = []
+    m = 14 if tier == "quick" else 150
+    for i in range(m):
+        steps, o = damage_archive(rng)
+        steps += [{"op": "damage_sweep", "with_header": False, "with_tails": True, "bitflips": 2 if tier == "quick" else 6,
+                   "sample": 0 if tier != "quick" else 50, "seed": seed * 100 + i,
+                   "then": [{"op": "versions"}, {"op": "list_all"}, {"op": "restore_all", "latest": True},
+                            {"op": "validate", "quick": False}, {"op": "validate", "quick": True},
+                            bk(o), {"op": "restore", "band": -2}]}]
+        scens.append({"id": sid("C10", "dmg", i), "props": ["C10"], "mode": "clean", "tags": ["damage"], "steps": steps})
+    return scens
+
+
+# ------------------------------------------------------------------------------------------
 # C11 path order and validity, C12 subtree selection
 
 APATH_COMPS_Q = [" ", "-", ".a", "a", "a.b", "ab", "b", "é", "éa", "z"]
@@ -684,6 +749,8 @@ NONTRIVIAL = {
     "C07": (lambda s: has_op(s, "conc_sweep") or sum(1 for st in s["steps"] if st["op"] == "backup") >= 2, "distinct histories with at least two backups, or backup||backup schedule sweeps"),
     "C08": (lambda s: sum(1 for b in s["steps"][0]["bands"] if b["head"] and not b["tail"]) >= 1 and len(s["steps"][0]["bands"]) >= 2,
             "distinct arrangements with at least two band directories of which at least one is an incomplete version (stitching happens)"),
+    "C09": (lambda s: has_op(s, "damage_sweep") or sum(1 for st in s["steps"] if st["op"] == "validate") >= 2, "distinct archives with a damage sweep (every file x kind), or healthy histories validated at least twice"),
+    "C10": (lambda s: has_op(s, "damage_sweep"), "distinct archives with a damage sweep (every file other than the header x kind + bit flips)"),
     "C11": (lambda s: has_op(s, "apath_table") or len(s["steps"][0].get("tree", [])) >= 4, "the comparator/validity table (all pairs of the exported strings) and distinct walked trees with >= 4 nodes"),
     "C12": (lambda s: has_op(s, "apath_table") or sum(1 for st in s["steps"] if st.get("subtree")) >= 3, "the ancestor table and distinct (tree, settings) cases with >= 3 subtree selections"),
     "C13": (lambda s: has_op(s, "backup"), "distinct histories with at least one backup"),
@@ -732,6 +799,17 @@ MANIFEST_TEXT = {
                      "gaps) x all hunk layouts of subsets of an order-exercising path alphabet and proves StitchOf equal to a declarative statement "
                      "of the rule, strictly increasing, duplicate-free, with correct provenance. The arrangements are written as real archives and "
                      "the real iter_entries (every N, subtree and exclusion filters) is compared with Listing() by TLC."),
+    "C09": dict(ref="DESIGN.md 7 C09", note=TRUST + " Whether damage 'matters' is decided by the specification (RestoreOf before vs after the damage), and silence is excused only when the damaged archive is itself a state fault-free operation can produce (Format.tla).",
+                text="Healthy side: every archive state reached by random histories (interrupted-with-header backups, deletes, gcs) is "
+                     "validated full and quick and must be silent. Damage side: every archive file (header, heads, hunks, blocks) x {delete, "
+                     "truncate 0, truncate half, garbage} plus bit flips; TLC decides from the decoded states whether some version no longer "
+                     "restores exactly and then requires validate to report."),
+    "C10": dict(ref="DESIGN.md 7 C10", note=TRUST + " A bit flip that leaves a hunk decodable is only required not to crash or hang.",
+                text="Every archive file other than the header x {delete, truncate 0, truncate half, garbage} plus bit flips, each followed by "
+                     "versions, ls and restore of every band, validate (full, quick), a new backup and its restore, under panic capture and a "
+                     "time-out. TLC judges containment from the decoded healthy and damaged states: untouched files restore exactly in versions "
+                     "that open; files whose hunk or block is the damaged file are reported (per file for blocks); after delete/empty a new backup "
+                     "completes and restores exactly."),
     "C11": dict(ref="DESIGN.md 7 C11", note=TRUST,
                 text="Apath.tla states the documented order and validity rule independently; TLC checks irreflexive/asymmetric/total/transitive "
                      "over all triples, children-before-grandchildren, contiguity of everything below a directory, parent-first, on all paths of "
